@@ -169,7 +169,7 @@ def run(prog, chk):
                     if ok:
                         near = [x for x in ens if g.dominates(x, node)]
                         for x in near[:1] or ens[:1]:
-                            chk.ob('R06.1', f, x.ln, _located(g, x, ENS.inner_establishing(x.e, t, canon)), 'ensure-active must report the call node\'s own line/column', key='%s#%d-loc' % (nm, j))
+                            chk.ob('R06.1', f, x.ln, _located(g, x, ENS.inner_establishing(x.e, t, canon), canon), 'ensure-active must report the call node\'s own line/column', key='%s#%d-loc' % (nm, j))
             elif nm == sim['measure'].short:
                 n_meas += 1
                 t = canon.text(arg(c, 0))
@@ -178,7 +178,7 @@ def run(prog, chk):
                 chk.ob('R06.2', f, node.ln, ok, 'sim.measure(%s) needs a dominating ensure-active(%s)' % (t, t), key='measure-ensure:' + _sitekey(g, node))
                 if ok:
                     for x in [x for x in ens if g.dominates(x, node)][:1]:
-                        chk.ob('R06.2', f, x.ln, _located(g, x, ENS.inner_establishing(x.e, t, canon)), 'ensure-active must report the measure node\'s own line/column',
+                        chk.ob('R06.2', f, x.ln, _located(g, x, ENS.inner_establishing(x.e, t, canon), canon), 'ensure-active must report the measure node\'s own line/column',
                                key='measure-loc:' + _sitekey(g, node))
                 mk = [x for x in g.calls() if MARK.establishes_canon(x.e, t, canon)]
                 ok2 = bool(mk) and g.must_follow(node, mk)
@@ -451,7 +451,7 @@ def _skips(g, edge, ws):
     return not any(w.id in r for w in ws)
 
 
-def _located(g, x, inner=None):
+def _located(g, x, inner=None, canon=None):
     """ensure call x passes (<node>->line, <node>->column) of one AST-node variable that is bound by a
     dominating dynamic_cast guard or is a parameter.  When x invokes a local closure, `inner` is the ensure call inside it
     (closures capture the handler's node variable by reference, so the same dominance test applies at x)."""
@@ -459,6 +459,12 @@ def _located(g, x, inner=None):
     if len(a) < 3:
         return False
     l, c = a[-2], a[-1]
+    if canon is not None and SX.is_node(SX.strip(l)) and SX.strip(l).get('k') == 'ref' and SX.is_node(SX.strip(c)) and SX.strip(c).get('k') == 'ref':
+        # a position handed through locals (value parameters of an inlined helper) is the expression they were initialised with
+        vl, vc = canon.vars.get(SX.strip(l).get('id')), canon.vars.get(SX.strip(c).get('id'))
+        if vl is not None and vc is not None and vl['id'] not in canon.written and vc['id'] not in canon.written and \
+                SX.is_node(vl.get('init')) and SX.is_node(vc.get('init')):
+            l, c = SX.strip(vl['init']), SX.strip(vc['init'])
     if not (SX.is_node(l) and SX.is_node(c) and l['k'] == 'member' and c['k'] == 'member'):
         return False
     if l['name'] != 'line' or c['name'] != 'column':
